@@ -484,6 +484,27 @@ theorem uncertainty_sum (s : CondState ℝ m d c) (Xq : Mat ℝ q d) {C M U : Ma
   have := (Except.ok.inj hU).symm; subst this
   simp [hi, hk]
 
+/-- The total uncertainty is never below the posterior variance: `uncertaintyᵢᵢ ≥ covarianceᵢᵢ` (the covariance of the mean is
+    positive semi-definite, unconditionally), and the total uncertainty matrix is positive semi-definite whenever the posterior
+    covariance is. -/
+theorem uncertainty_ge_covariance (s : CondState ℝ m d c) (Xq : Mat ℝ q d) {C M U : Mat ℝ q q}
+    (hC : s.covariance Xq = .ok C) (hM : s.meanCovariance Xq = .ok M) (hU : s.uncertainty Xq = .ok U)
+    (i : Nat) (hi : i < q) : C.el i i ≤ U.el i i := by
+  rw [uncertainty_sum s Xq hC hM hU i i hi hi]
+  have := (meancov_psd s Xq hM).diag_nonneg (i := ⟨i, hi⟩)
+  simp only [toM_apply] at this
+  linarith
+
+theorem uncertainty_psd (s : CondState ℝ m d c) (Xq : Mat ℝ q d) {C M U : Mat ℝ q q}
+    (hC : s.covariance Xq = .ok C) (hM : s.meanCovariance Xq = .ok M) (hU : s.uncertainty Xq = .ok U)
+    (hCpsd : (toM C).PosSemidef) : (toM U).PosSemidef := by
+  have e : toM U = toM C + toM M := by
+    ext i k
+    simp only [toM_apply, Matrix.add_apply]
+    exact uncertainty_sum s Xq hC hM hU i k i.isLt k.isLt
+  rw [e]
+  exact hCpsd.add (meancov_psd s Xq hM)
+
 /-- A predictor built without uncertainty refuses covariance, mean covariance and uncertainty. -/
 theorem guards (s : CondState ℝ m d c) (hL : s.L = Option.none) (hW : s.W = Option.none) (Xq : Mat ℝ q d) :
     s.covariance Xq = .error .noCovariance ∧ s.variance Xq = .error .noCovariance
